@@ -570,11 +570,11 @@ class Interp:
                 raise AnalysisError("missing kw-only argument %s" % p.arg)
         if kwargs:
             if a.kwarg is not None:
-                env[a.kwarg.arg] = Opaque("kwargs", dict(kwargs))
+                env[a.kwarg.arg] = Tup([(k, v) for k, v in kwargs.items()], "dict")  # (**name is an ordinary dict of the extra keywords)
             else:
                 raise AnalysisError("unexpected keyword arguments %s for %s" % (sorted(kwargs), fn.name))
         elif a.kwarg is not None:
-            env[a.kwarg.arg] = Opaque("kwargs", {})
+            env[a.kwarg.arg] = Tup([], "dict")
         return env
 
     def eval_in_module(self, module, node):
@@ -2257,6 +2257,8 @@ class Interp:
                     t = bool(t.items if isinstance(t, Tup) else t)
                 if t is None:
                     t = False
+                if isinstance(t, (Expr, Pred, BoolCombo, Member)):
+                    t = self.truth(t)  # a filter on a value that is not fixed: one explored path per outcome
                 if not isinstance(t, bool):
                     return None
                 if not t:
